@@ -726,3 +726,342 @@ pub fn plant_ep_near_king(t: &mut Tape) -> Option<Pos> {
     }
     Some(n)
 }
+
+// ------------------------------------------------------------------ planted: boxed-in king
+
+/// Squares from which a black piece of kind `k` would attack `n` on the current board (empty
+/// squares only).
+fn attack_origins(p: &Pos, n: Sq, k: Kind) -> Vec<Sq> {
+    let (f, r) = (file_of(n), rank_of(n));
+    let mut out = vec![];
+    match k {
+        Kind::P => {
+            // a black pawn on (f±1, r+1) attacks n
+            for df in [-1i8, 1] {
+                if let Some(s) = mk(f + df, r + 1) {
+                    if p.at(s).is_none() && rank_of(s) != 7 && rank_of(s) != 0 {
+                        out.push(s);
+                    }
+                }
+            }
+        }
+        Kind::N => {
+            for (df, dr) in [(1i8, 2i8), (2, 1), (2, -1), (1, -2), (-1, -2), (-2, -1), (-2, 1), (-1, 2)] {
+                if let Some(s) = mk(f + df, r + dr) {
+                    if p.at(s).is_none() {
+                        out.push(s);
+                    }
+                }
+            }
+        }
+        Kind::K => {}
+        _ => {
+            let rook = [(1i8, 0i8), (-1, 0), (0, 1), (0, -1)];
+            let bish = [(1i8, 1i8), (1, -1), (-1, 1), (-1, -1)];
+            let mut dirs: Vec<(i8, i8)> = vec![];
+            if k == Kind::R || k == Kind::Q {
+                dirs.extend(rook);
+            }
+            if k == Kind::B || k == Kind::Q {
+                dirs.extend(bish);
+            }
+            for (df, dr) in dirs {
+                let (mut cf, mut cr) = (f + df, r + dr);
+                while let Some(s) = mk(cf, cr) {
+                    if p.at(s).is_some() {
+                        break;
+                    }
+                    out.push(s);
+                    cf += df;
+                    cr += dr;
+                }
+            }
+        }
+    }
+    out
+}
+
+/// Add black pieces until every square next to the white king that the king could step on is
+/// attacked (greedy, bounded).  `reserved` squares stay empty; the king itself is attacked only if
+/// `allow_check`.
+fn box_white_king(p: &mut Pos, t: &mut Tape, reserved: u64, allow_check: bool) {
+    let k = match p.king_sq(Col::W) {
+        Some(k) => k,
+        None => return,
+    };
+    for _ in 0..14 {
+        let open: Vec<Sq> = (0..64u8)
+            .filter(|&n| n != k && adjacent(n, k) && !matches!(p.at(n), Some((Col::W, _))) && !p.attacked(n, Col::B))
+            .collect();
+        if open.is_empty() || p.men(Col::B) >= 14 {
+            return;
+        }
+        let n = open[t.below(open.len())];
+        let kind = [Kind::R, Kind::B, Kind::Q, Kind::N, Kind::P, Kind::R, Kind::B, Kind::N][t.below(8)];
+        if kind == Kind::P && p.count(Col::B, Kind::P) >= 7 {
+            continue;
+        }
+        let cands: Vec<Sq> = attack_origins(p, n, kind)
+            .into_iter()
+            .filter(|&s| reserved >> s & 1 == 0)
+            .filter(|&s| {
+                if allow_check {
+                    return true;
+                }
+                let mut q = p.clone();
+                q.board[s as usize] = Some((Col::B, kind));
+                !q.attacked(k, Col::B)
+            })
+            .collect();
+        if cands.is_empty() {
+            continue;
+        }
+        let s = cands[t.below(cands.len())];
+        p.board[s as usize] = Some((Col::B, kind));
+    }
+}
+
+fn bit(s: Sq) -> u64 {
+    1u64 << s
+}
+
+/// Low-mobility positions: the king of the side to move is boxed in by enemy attacks and the only
+/// other movable thing is a planted feature - an en-passant capture (free; capturer pinned along
+/// the capture diagonal = legal; pinned otherwise or rank pattern = illegal; the only evasion of
+/// the pushed pawn's check), a pawn on the seventh rank (blocked / capturing / diagonally pinned
+/// by a piece it can take), a pinned piece, or nothing.  Such positions are where a single
+/// missing or extra move flips `status()` between Ongoing and Stalemate / Checkmate.
+/// Constructed for White to move and then mirrored at random; en-passant state always arises
+/// from a validated predecessor plus the reference model's double push.
+pub fn plant_boxed(t: &mut Tape) -> Option<(Pos, &'static str)> {
+    let mut p = Pos::empty();
+    let variant = t.below(12);
+    let allow_check = t.chance(1, 5);
+    let mut reserved: u64 = 0;
+    let mut push: Option<Mv> = None;
+    let tag: &'static str;
+    let put = |p: &mut Pos, s: Sq, c: Col, k: Kind| -> Option<()> {
+        if p.at(s).is_some() {
+            return None;
+        }
+        p.board[s as usize] = Some((c, k));
+        Some(())
+    };
+    let free_king = |p: &mut Pos, t: &mut Tape, reserved: u64| -> Option<()> {
+        // white king: corners and edges preferred
+        let all: Vec<Sq> = (0..64u8).filter(|&s| p.at(s).is_none() && reserved >> s & 1 == 0).collect();
+        let edge: Vec<Sq> = all.iter().copied().filter(|&s| file_of(s) == 0 || file_of(s) == 7 || rank_of(s) == 0 || rank_of(s) == 7).collect();
+        let corner: Vec<Sq> = all.iter().copied().filter(|&s| (file_of(s) == 0 || file_of(s) == 7) && (rank_of(s) == 0 || rank_of(s) == 7)).collect();
+        let pool = match t.below(4) {
+            0 if !corner.is_empty() => corner,
+            1 | 2 if !edge.is_empty() => edge,
+            _ => all,
+        };
+        if pool.is_empty() {
+            return None;
+        }
+        let s = pool[t.below(pool.len())];
+        p.board[s as usize] = Some((Col::W, Kind::K));
+        Some(())
+    };
+    if variant <= 6 {
+        // ---------------------------------------------------------------- en-passant features
+        let fc = t.below(8) as i8;
+        let dx: i8 = if t.chance(1, 2) { 1 } else { -1 };
+        let fd = fc + dx;
+        if !(0..8).contains(&fd) {
+            return None;
+        }
+        let pw = mk(fc, 4)?; // white capturer
+        let home = mk(fd, 6)?;
+        let mid = mk(fd, 5)?; // capture destination
+        let land = mk(fd, 4)?;
+        put(&mut p, pw, Col::W, Kind::P)?;
+        put(&mut p, home, Col::B, Kind::P)?;
+        reserved |= bit(mid) | bit(land);
+        push = Some(Mv::new(home, land, None));
+        // a second capturer on the other side, now and then
+        if t.chance(1, 6) {
+            if let Some(s2) = mk(fd + dx, 4) {
+                let _ = put(&mut p, s2, Col::W, Kind::P);
+            }
+        }
+        match variant {
+            0 | 1 => {
+                tag = "boxed:en-passant-free";
+                free_king(&mut p, t, reserved)?;
+            }
+            2 | 3 => {
+                // pinned along the capture diagonal: king behind the pawn, pinner beyond `mid`
+                tag = "boxed:en-passant-pinned-on-capture-diagonal";
+                let kd = 1 + t.below(3) as i8;
+                let ks = mk(fc - kd * dx, 4 - kd)?;
+                for i in 1..kd {
+                    reserved |= bit(mk(fc - i * dx, 4 - i)?);
+                }
+                put(&mut p, ks, Col::W, Kind::K)?;
+                let pd = 1 + t.below(2) as i8;
+                let ps = mk(fd + pd * dx, 5 + pd)?;
+                for i in 1..pd {
+                    reserved |= bit(mk(fd + i * dx, 5 + i)?);
+                }
+                put(&mut p, ps, Col::B, if t.chance(1, 2) { Kind::B } else { Kind::Q })?;
+            }
+            4 => {
+                // pinned along the other diagonal or the file: the capture is illegal
+                tag = "boxed:en-passant-pinned-off-line";
+                let (lx, ly): (i8, i8) = if t.chance(1, 2) { (-dx, 1) } else { (0, 1) };
+                let kd = 1 + t.below(3) as i8;
+                let ks = mk(fc - kd * lx, 4 - kd * ly)?;
+                for i in 1..kd {
+                    reserved |= bit(mk(fc - i * lx, 4 - i * ly)?);
+                }
+                put(&mut p, ks, Col::W, Kind::K)?;
+                let pd = 1 + t.below(3) as i8;
+                let ps = mk(fc + pd * lx, 4 + pd * ly)?;
+                for i in 1..pd {
+                    reserved |= bit(mk(fc + i * lx, 4 + i * ly)?);
+                }
+                let kind = if lx == 0 { if t.chance(1, 2) { Kind::R } else { Kind::Q } } else if t.chance(1, 2) { Kind::B } else { Kind::Q };
+                put(&mut p, ps, Col::B, kind)?;
+            }
+            5 => {
+                // rank pattern: king and enemy rook/queen on the pawns' rank, nothing else between
+                tag = "boxed:en-passant-rank-pattern";
+                let (lo, hi) = (fc.min(fd), fc.max(fd));
+                let left_king = t.chance(1, 2);
+                let (kf, rf) = if left_king { (lo - 1 - t.below(3) as i8, hi + 1 + t.below(3) as i8) } else { (hi + 1 + t.below(3) as i8, lo - 1 - t.below(3) as i8) };
+                let ks = mk(kf, 4)?;
+                let rs = mk(rf, 4)?;
+                for f in (kf.min(rf) + 1)..kf.max(rf) {
+                    if f != fc && f != fd {
+                        reserved |= bit(mk(f, 4)?);
+                    }
+                }
+                put(&mut p, ks, Col::W, Kind::K)?;
+                put(&mut p, rs, Col::B, if t.chance(1, 2) { Kind::R } else { Kind::Q })?;
+            }
+            _ => {
+                // the pushed pawn gives check: capturing it en passant is an evasion
+                tag = "boxed:en-passant-evades-pawn-check";
+                let ks = if t.chance(1, 2) { mk(fc, 3)? } else { mk(fd - dx, 3)? };
+                put(&mut p, ks, Col::W, Kind::K)?;
+            }
+        }
+        // block the capturer's own push most of the time
+        if t.chance(3, 4) {
+            if let Some(front) = mk(fc, 5) {
+                if p.at(front).is_none() && reserved >> front & 1 == 0 {
+                    let k = [Kind::P, Kind::N, Kind::B, Kind::R][t.below(4)];
+                    p.board[front as usize] = Some((Col::B, k));
+                }
+            }
+        }
+    } else if variant <= 8 {
+        // ---------------------------------------------------------------- pawn on the seventh
+        tag = "boxed:pawn-on-seventh";
+        let f = t.below(8) as i8;
+        let pw = mk(f, 6)?;
+        put(&mut p, pw, Col::W, Kind::P)?;
+        let pinned = t.chance(1, 2);
+        if pinned {
+            let e: i8 = if t.chance(1, 2) { 1 } else { -1 };
+            let ps = mk(f + e, 7)?;
+            put(&mut p, ps, Col::B, if t.chance(1, 2) { Kind::B } else { Kind::Q })?;
+            let kd = 1 + t.below(3) as i8;
+            let ks = mk(f - kd * e, 6 - kd)?;
+            for i in 1..kd {
+                reserved |= bit(mk(f - i * e, 6 - i)?);
+            }
+            put(&mut p, ks, Col::W, Kind::K)?;
+        } else {
+            free_king(&mut p, t, reserved)?;
+        }
+        let ahead = mk(f, 7)?;
+        if t.chance(2, 3) {
+            let _ = put(&mut p, ahead, Col::B, [Kind::N, Kind::B, Kind::R, Kind::Q][t.below(4)]);
+        } else {
+            reserved |= bit(ahead);
+        }
+        for e in [-1i8, 1] {
+            if let Some(s) = mk(f + e, 7) {
+                if p.at(s).is_none() && t.chance(1, 3) {
+                    p.board[s as usize] = Some((Col::B, [Kind::N, Kind::B, Kind::R, Kind::Q][t.below(4)]));
+                }
+            }
+        }
+    } else if variant <= 10 {
+        // ---------------------------------------------------------------- one pinned piece
+        tag = "boxed:pinned-piece";
+        free_king(&mut p, t, 0)?;
+        let ks = p.king_sq(Col::W)?;
+        let dirs = [(1i8, 0i8), (-1, 0), (0, 1), (0, -1), (1, 1), (1, -1), (-1, 1), (-1, -1)];
+        let (dx, dy) = dirs[t.below(8)];
+        let d1 = 1 + t.below(3) as i8;
+        let d2 = d1 + 1 + t.below(3) as i8;
+        let xs = mk(file_of(ks) + d1 * dx, rank_of(ks) + d1 * dy)?;
+        let es = mk(file_of(ks) + d2 * dx, rank_of(ks) + d2 * dy)?;
+        for i in 1..d2 {
+            if i != d1 {
+                reserved |= bit(mk(file_of(ks) + i * dx, rank_of(ks) + i * dy)?);
+            }
+        }
+        let own = [Kind::N, Kind::B, Kind::R, Kind::Q, Kind::P][t.below(5)];
+        if own == Kind::P && (rank_of(xs) == 0 || rank_of(xs) == 7) {
+            return None;
+        }
+        put(&mut p, xs, Col::W, own)?;
+        let straight = dx == 0 || dy == 0;
+        let slider = if t.chance(1, 3) { Kind::Q } else if straight { Kind::R } else { Kind::B };
+        put(&mut p, es, Col::B, slider)?;
+    } else {
+        tag = "boxed:bare";
+        free_king(&mut p, t, 0)?;
+        // an immobile own pawn or two
+        for _ in 0..t.below(3) {
+            let f = t.below(8) as i8;
+            let r = 1 + t.below(5) as i8;
+            if let (Some(a), Some(b)) = (mk(f, r), mk(f, r + 1)) {
+                if p.at(a).is_none() && p.at(b).is_none() {
+                    p.board[a as usize] = Some((Col::W, Kind::P));
+                    p.board[b as usize] = Some((Col::B, if r + 1 == 7 { Kind::N } else { Kind::P }));
+                }
+            }
+        }
+    }
+    // black king: anywhere not adjacent to the white king, off the reserved squares
+    let wk = p.king_sq(Col::W)?;
+    let cands: Vec<Sq> = (0..64u8).filter(|&s| p.at(s).is_none() && reserved >> s & 1 == 0 && !adjacent(s, wk)).collect();
+    if cands.is_empty() {
+        return None;
+    }
+    let near: Vec<Sq> = cands.iter().copied().filter(|&s| (file_of(s) - file_of(wk)).abs() <= 2 && (rank_of(s) - rank_of(wk)).abs() <= 2).collect();
+    let bk = if !near.is_empty() && t.chance(1, 3) { near[t.below(near.len())] } else { cands[t.below(cands.len())] };
+    p.board[bk as usize] = Some((Col::B, Kind::K));
+    // box the white king in (before a planted push the king must not stand in check)
+    box_white_king(&mut p, t, reserved, allow_check && push.is_none());
+    let out = match push {
+        Some(m) => {
+            p.stm = Col::B;
+            clear_attackers(&mut p, Col::W);
+            if p.validate().is_err() || !p.pseudo_moves().contains(&m) || !p.is_legal(m) {
+                return None;
+            }
+            p.apply(m)
+        }
+        None => {
+            p.stm = Col::W;
+            clear_attackers(&mut p, Col::B);
+            p
+        }
+    };
+    if out.validate().is_err() {
+        return None;
+    }
+    let out = if t.chance(1, 2) { out.mirror_v() } else { out };
+    let out = if t.chance(1, 2) { out.mirror_h() } else { out };
+    if out.validate().is_err() {
+        return None;
+    }
+    Some((out, tag))
+}
